@@ -216,6 +216,29 @@ def ukf {n m p : Nat} (pinv : Mat α p p → Mat α p p) (msqrt : Mat α n n →
   let P := memoM (msub Pm.mfn (mmul (mmul K.mfn Py.mfn) (transpose K.mfn)))
   ⟨x.fn, P.mfn⟩
 
+/-- the predicted covariance `P⁻` inside `ukf` (the matrix whose square root the second sigma set needs) -/
+def ukfPredCov {n m p : Nat} (msqrt : Mat α n n → Mat α n n) (kk : α) (s : Step α n m p) (pr : Post α n) : Mat α n n :=
+  let a := w0 n kk
+  let b := wr n kk
+  let xs := (sigmaPoints msqrt pr.x pr.P kk).map (fun pt => s.sys.f pt s.u)
+  let xe := memoV (xs.wsum a b)
+  let ex := xs.dev xe.fn
+  (memoM (madd s.Q (ex.cov a b ex))).mfn
+
+/-- the total function behind a root that can fail (its value where the root fails is never used by `ukfO`) -/
+def rootOr0 {n : Nat} (chol : Mat α n n → Option (Mat α n n)) : Mat α n n → Mat α n n :=
+  fun M => match chol M with
+    | some L => L
+    | none => fun _ _ => k 0
+
+/-- UKF with a square root that can FAIL (`torch.linalg.cholesky` raises `LinAlgError` on a matrix that is not positive
+definite): `none` when one of the two factorisations the call makes does not exist -/
+def ukfO {n m p : Nat} (pinv : Mat α p p → Mat α p p) (chol : Mat α n n → Option (Mat α n n)) (kk : α)
+    (s : Step α n m p) (pr : Post α n) : Option (Post α n) :=
+  match chol (msmul (k n + kk) pr.P), chol (msmul (k n + kk) (ukfPredCov (rootOr0 chol) kk s pr)) with
+  | some _, some _ => some (ukf pinv (rootOr0 chol) kk s pr)
+  | _, _ => none
+
 /-- a run on one filter object: every call carries its own sigma-point parameter `k` (the API takes `k` per
 call; `None` is `3 − n`) besides its own system, `u`, `y`, `Q`, `R` -/
 def runUKF {n m p : Nat} (pinv : Mat α p p → Mat α p p) (msqrt : Mat α n n → Mat α n n)
